@@ -593,6 +593,43 @@ pub fn derive_spec(texts: &ExtTexts, r: &mut Rng) -> Option<String> {
             lines.push(format!("assumption{dir}: {f}."));
         }
     }
+    // hand-written spec formulas of shapes no translation produces: an equivalence directly
+    // under an existential quantifier, under a negation, inside a disjunction, under two
+    // alternating quantifiers
+    let pubs: Vec<fol::Predicate> = ug.public_predicates().into_iter().collect();
+    if !pubs.is_empty() && r.chance(1, 2) {
+        for _ in 0..(1 + r.upto(2)) {
+            let mut atom = |r: &mut Rng, v: &str| -> String {
+                let unary: Vec<&fol::Predicate> = pubs.iter().filter(|p| p.arity == 1).collect();
+                let p = if !unary.is_empty() && r.chance(3, 4) { unary[r.upto(unary.len())] } else { &pubs[r.upto(pubs.len())] };
+                if p.arity == 0 {
+                    p.symbol.clone()
+                } else {
+                    let args: Vec<String> = (0..p.arity).map(|i| if i == 0 { v.to_string() } else { ["0", "1", v][r.upto(3)].to_string() }).collect();
+                    format!("{}({})", p.symbol, args.join(", "))
+                }
+            };
+            let (a, b, c) = (atom(r, "X"), atom(r, "X"), atom(r, "Y"));
+            // outside the window {1, 2} the left side is true and the right side false, so that
+            // only 1 and 2 can witness the existential formula (over the infinite domain any
+            // value outside all extents would)
+            let wa = format!("({a} or (X != 1 and X != 2))");
+            let wb = format!("({b} and (X = 1 or X = 2))");
+            let f = match r.below(10) {
+                6 | 7 => format!("exists X ({wa} <-> {wb})"),
+                8 => format!("exists X ({wb} <-> {wa})"),
+                9 => format!("exists X Y ({wa} <-> {wb} and Y = X)"),
+                0 => format!("exists X ({a} <-> {b})"),
+                1 => format!("exists X ({a} <-> {b} and X = 1)"),
+                2 => format!("not forall X ({a} <-> {b})"),
+                3 => format!("forall Y exists X (({a} <-> {c}) or X != Y)"),
+                4 => format!("exists X ({a} <-> {b}) or forall Y ({c} <-> not {c})"),
+                _ => format!("exists X$i (X$i >= 0 and X$i <= 2 and ({} <-> {}))", a.replace("X", "X$i"), b.replace("X", "X$i")),
+            };
+            let dir = ["", "(forward)", "(backward)", "(universal)"][r.upto(4)];
+            lines.push(format!("spec{dir}: {f}."));
+        }
+    }
     r.shuffle(&mut lines);
     let text = lines.join("\n");
     // must be accepted by anthem's own parser, otherwise fall back to the program
